@@ -694,6 +694,7 @@ def desugar_iterator_chains(ft, ads):
     when the closure body contains no return/break/continue/`?` (whose meaning would differ inside a loop).  The closure may mutate
     captured variables (FnMut): the loop body performs the same mutations in the same order."""
     n21 = n22 = 0
+    n23 = False
     while True:
         sig = ft.sig
         hit = None
@@ -731,8 +732,38 @@ def desugar_iterator_chains(ft, ads):
                 hit = ("D22", es, k, fo, fc, f_name, cond)
                 break
         if hit is None:
+            # D23: `let NAME: Vec<_> = E.into_iter().filter(|P| COND).collect();`
+            for k in range(len(sig) - 8):
+                tx = [u.text for u in sig[k:k + 9]]
+                if tx[:6] == [".", "into_iter", "(", ")", ".", "filter"] and tx[6] == "(" and tx[7] == "|":
+                    fo = k + 6
+                    fc = match_close(sig, fo)
+                    if [u.text for u in sig[fc + 1:fc + 6]] != [".", "collect", "(", ")", ";"]:
+                        continue
+                    if not (sig[fo + 2].kind == "ident" and sig[fo + 3].text == "|"):
+                        continue
+                    es = _expr_start(sig, k - 1)
+                    # must be the initialiser of `let NAME: Vec<_> =`
+                    if not (es >= 6 and [u.text for u in sig[es - 6:es]] == [":", "Vec", "<", "_", ">", "="] and sig[es - 8].text == "let"):
+                        continue
+                    cond = sig[fo + 4:fc]
+                    if not cond or _has_control_flow(cond):
+                        continue
+                    hit = ("D23", es, k, fo, fc, sig[fo + 2].text, cond)
+                    break
+        if hit is None:
             break
-        if hit[0] == "D21":
+        if hit[0] == "D23":
+            _, es, k, fo, fc, f_name, cond = hit
+            recv = ft.text[sig[es].s:sig[k - 1].e]
+            ctxt = ft.text[cond[0].s:cond[-1].e]
+            tag = f"d23_{n22}"
+            rep = (f"{{ let mut {tag}_out = Vec::new(); for {tag}_x in {recv} "
+                   f"{{ let {tag}_keep = {{ let {f_name} = &{tag}_x; {ctxt} }}; if {tag}_keep {{ {tag}_out.push({tag}_x); }} }} {tag}_out }}")
+            ft.edits.append((sig[es].s, sig[fc + 4].e - sig[es].s, rep))
+            n22 += 1
+            n23 = True
+        elif hit[0] == "D21":
             _, es, k, mo, mc, i_name, x_name, body = hit
             recv = ft.text[sig[es].s:sig[k - 1].e]
             btxt = ft.text[body[0].s:body[-1].e]
@@ -754,6 +785,8 @@ def desugar_iterator_chains(ft, ads):
         ft.relex()
     if n21:
         ads.append({"rule": "D21", "what": f"{n21} `.into_iter().enumerate().map(|(i, x)| ..).collect_vec()` chain(s) desugared to an explicit loop pushing onto a Vec"})
+    if n23:
+        ads.append({"rule": "D23", "what": "`let v: Vec<_> = E.into_iter().filter(|p| ..).collect();` desugared to an explicit loop that evaluates the condition on a reference to each element and pushes the elements that satisfy it"})
     if n22:
         ads.append({"rule": "D22", "what": f"{n22} `.iter().filter(|x| ..).cloned().collect_vec()` chain(s) desugared to an explicit loop pushing the clones of the elements that satisfy the condition"})
 
